@@ -80,7 +80,7 @@ impl Prop for C07 {
         Some("tape")
     }
     fn rule(&self) -> String {
-        "stateful, model-based: generated transition system (bit-vector states up to 70 bits and array states, with/without init, init over earlier states, constant states, states without next) plus a tape-decoded history of <= 40 operations init(Zero|Random(seed)) / set(input, value) (one time in four: set(state, value)) / step / get(state|input|output|bad|constraint|sub-expression) / take_snapshot / restore_snapshot(k) run on patronus::sim::Interpreter and on a reference model built on the independent evaluator; after every operation all observable expressions must agree. init(Random) values are read back once for init-less symbols, init-ed states are checked against their init expressions, and a second interpreter with the same seed must agree. restore must reproduce the state values of the snapshot (inputs are re-synchronised by reading them back) and the continuation is compared step by step. Non-trivial: history with a step after a set-input and a restore followed by a step, on a system with >= 2 states where one next function reads another state; distinct by hash of the tape.".into()
+        "stateful, model-based: generated transition system (bit-vector states up to 70 bits and array states, with/without init, init over earlier states, constant states, states without next) plus a tape-decoded history of <= 40 operations init(Zero|Random(seed)) / set(input, value) (one time in four: set(state, value)) / step / get(state|input|output|bad|constraint|sub-expression) / take_snapshot / restore_snapshot(k) run on patronus::sim::Interpreter and on a reference model built on the independent evaluator; after every operation all observable expressions must agree (in half of the histories reads are sparse: skipped after some operations and restricted to a random subset, so that state kept between two reads of an expression can go stale). init(Random) values are read back once for init-less symbols, init-ed states are checked against their init expressions, and a second interpreter with the same seed must agree. restore must reproduce the state values of the snapshot (inputs are re-synchronised by reading them back) and the continuation is compared step by step. Non-trivial: history with a step after a set-input and a restore followed by a step, on a system with >= 2 states where one next function reads another state; distinct by hash of the tape.".into()
     }
     fn budget(&self, tier: Tier) -> Budget {
         match tier {
@@ -116,6 +116,11 @@ impl Prop for C07 {
             v.dedup();
             v
         };
+        let mut env_before_step: Option<Env> = None;
+        let sparse_reads = t.flag();
+        if sparse_reads {
+            rec.label("reads:sparse");
+        }
         // both public constructors that need no file: plain, and with tracing switched on
         let traced = t.chance(64);
         if traced {
@@ -215,6 +220,7 @@ impl Prop for C07 {
                     if let Err(p) = guard(|| sim.step()) {
                         return Err(panic_fail("step", p, ctx, sys, &hist));
                     }
+                    env_before_step = Some(model.env.clone());
                     model.step().map_err(|m| Failure::new("harness/c07", m))?;
                     if pending_set {
                         set_then_step = true;
@@ -257,9 +263,19 @@ impl Prop for C07 {
                     hist.push("get*".into());
                 }
             }
-            // ---- compare every observable expression
+            // ---- compare the observable expressions: in dense histories all of them after every operation,
+            //      in sparse histories (half of the cases) only now and then and only some of them, so that
+            //      whatever the simulator keeps between two reads of an expression gets a chance to go stale
+            // (state symbols are always read right after a step, so that a wrongly computed next value is
+            //  attributed to that step and to the evaluator's known defects rather than surfacing later)
+            let after_step = hist.last().map(|h| h == "step").unwrap_or(false);
+            let skip_round = sparse_reads && t.flag();
             let mut cache = Default::default();
             for e in observable.iter() {
+                let must_read = after_step && sys.states.iter().any(|s| s.symbol == *e);
+                if !must_read && (skip_round || (sparse_reads && t.flag())) {
+                    continue;
+                }
                 let exp = refeval::eval_cached(ctx, &model.env, *e, &mut cache).map_err(|m| Failure::new("harness/c07", m))?;
                 let got = match get_guarded(&sim, *e) {
                     Ok(v) => v,
@@ -288,6 +304,21 @@ impl Prop for C07 {
                     } else {
                         "expression"
                     };
+                    // a state that is wrong right after a step: did the evaluator (C06's business, shared root
+                    // causes) compute its next-state expression wrongly from the values before the step?
+                    if role == "state" && opname == "step" {
+                        if let (Some(prev), Some(next)) =
+                            (env_before_step.as_ref(), sys.states.iter().find(|s| s.symbol == *e).and_then(|s| s.next))
+                        {
+                            let mut c2 = ctx.clone();
+                            if let Some((tail, detail)) = crate::props::c06::localise(&mut c2, prev, next) {
+                                return Err(Failure::new(
+                                    format!("sim/eval/{}", tail),
+                                    format!("{}\nhistory: {}\nsystem: {}", detail, hist.join(" ; "), show_system(ctx, sys)),
+                                ));
+                            }
+                        }
+                    }
                     // is it the evaluator (C06's business, shared root causes) or the simulator?
                     if role == "expression" {
                         let mut c2 = ctx.clone();
